@@ -462,7 +462,8 @@ def _is_prop(obj, name):
 @builder('Quaternion()')
 def _b(V, L, cid):
     Qn = L.Quaternion
-    return [C('q=unit', lambda: {'q': V.q}, lambda a: Qn(a['q']), tags=('unit', 'single')),
+    return [C('no arguments (the default, identity)', lambda: {}, lambda a: Qn(), tags=('unit',)),
+            C('q=unit', lambda: {'q': V.q}, lambda a: Qn(a['q']), tags=('unit', 'single')),
             C('q=nonunit', lambda: {'q': V.qn}, lambda a: Qn(a['q']), tags=('nonunit', 'single')),
             C('q=nonunit versor=False', lambda: {'q': V.qn}, lambda a: Qn(a['q'], versor=False), tags=('nonunit',)),
             C('q=3-vector', lambda: {'q': V.v}, lambda a: Qn(a['q']), tags=('nonunit',)),
@@ -527,7 +528,8 @@ def _b(V, L, cid):
 @builder('QuaternionArray()')
 def _b(V, L, cid):
     QA = L.QuaternionArray
-    return [C('q=unit', lambda: {'q': V.Q}, lambda a: QA(a['q']), tags=('unit', 'batch')),
+    return [C('no arguments (the default, one identity row)', lambda: {}, lambda a: QA(), tags=('unit',)),
+            C('q=unit', lambda: {'q': V.Q}, lambda a: QA(a['q']), tags=('unit', 'batch')),
             C('q=nonunit', lambda: {'q': V.Qn}, lambda a: QA(a['q']), tags=('nonunit', 'batch')),
             C('q=nonunit versors=False', lambda: {'q': V.Qn}, lambda a: QA(a['q'], versors=False), tags=('nonunit', 'batch')),
             C('q=(N,3)', lambda: {'q': V.XYZ}, lambda a: QA(a['q']), tags=('nonunit', 'batch')),
@@ -613,7 +615,8 @@ def _b(V, L, cid):
 @builder('DCM()')
 def _b(V, L, cid):
     D = L.DCM
-    return [C('array=3x3', lambda: {'array': V.R}, lambda a: D(a['array']), tags=('single',)),
+    return [C('no arguments (the default, identity)', lambda: {}, lambda a: D(), tags=('single',)),
+            C('array=3x3', lambda: {'array': V.R}, lambda a: D(a['array']), tags=('single',)),
             C('q=unit', lambda: {'q': V.q}, lambda a: D(q=a['q']), tags=('optional-array', 'unit')),
             C('q=nonunit', lambda: {'q': V.qn}, lambda a: D(q=a['q']), tags=('optional-array', 'nonunit')),
             C('rpy=', lambda: {'rpy': V.angd}, lambda a: D(rpy=a['rpy']), tags=('optional-array',)),
@@ -1402,6 +1405,8 @@ def history(ctx, L, cid, entry, case, cont, k, scale=1.0):
     first = None
     flagged = set()
     repeat_flagged = False
+    result_flagged = False
+    live1 = None
     for n_call in (1, 2, 3):
         _seed_call(L, rng, k)
         out = _invoke(case['call'], Aobj)
@@ -1415,6 +1420,25 @@ def history(ctx, L, cid, entry, case, cont, k, scale=1.0):
                 ctx.fail(f'{cid} modifies its argument {n}', f'{key0} call={n_call}', render(Aobj[n]), before_r[n], 0)
         if n_call == 1:
             first = (fr, out)
+            live1 = out[1] if out[0] == 'ok' else None          # the first result, kept alive by the caller while it goes on calling
+        elif live1 is not None and not exempt and not result_flagged:
+            # a result handed to the caller is the caller's: later calls neither change it nor return memory shared with it
+            ctx.evals += 1
+            now = ('ok', freeze(live1))
+            shares = (out[0] == 'ok' and isinstance(out[1], np.ndarray) and isinstance(live1, np.ndarray)
+                      and out[1].size > 0 and (out[1] is live1 or np.shares_memory(out[1], live1)))
+            if shares:      # accessors that return a view of one of their arguments (q.v, R.I ...) legitimately share that argument's memory
+                for v_ in Aobj.values():
+                    arrs_ = [v_] if isinstance(v_, np.ndarray) else [x_ for x_ in getattr(v_, '__dict__', {}).values() if isinstance(x_, np.ndarray)]
+                    if any(a_.size and np.shares_memory(a_, live1) for a_ in arrs_):
+                        shares = False
+                        break
+            if now != first[0] or shares:
+                result_flagged = True
+                ctx.fail(f'{cid}: a returned result is unchanged by later calls and shares no memory with later results', f'{key0} call={n_call}',
+                         render(live1), render(first[1][1]), 0)
+        if n_call == 1:
+            pass
         elif not case.get('random') and not exempt:
             ctx.evals += 1
             if fr != first[0] and not repeat_flagged:
